@@ -84,10 +84,41 @@ def apply(tree, site):
     return tree
 
 
-def run_checks(copy_dir, timeout):
+RELEVANT = [
+    ("routing_table/", ["C04", "C01", "C10", "C17"]),
+    ("place_and_route/route", ["C03", "C01", "C17"]),
+    ("place_and_route/place", ["C02", "C01", "C17"]),
+    ("place_and_route/allocate", ["C05", "C01", "C17"]),
+    ("place_and_route/", ["C01", "C10", "C14", "C02", "C03", "C05", "C17"]),
+    ("bitfield", ["C08", "C17"]),
+    ("geometry", ["C11", "C19", "C03", "C18"]),
+    ("links", ["C11", "C03", "C01"]),
+    ("type_casts", ["C16"]),
+    ("machine_control/regions", ["C12", "C09"]),
+    ("machine_control/packets", ["C15", "C06"]),
+    ("machine_control/scp_connection", ["C06", "C07", "C18"]),
+    ("machine_control/boot", ["C20", "C17"]),
+    ("machine_control/struct_file", ["C20", "C07", "C14"]),
+    ("machine_control/bmp_controller", ["C18", "C14"]),
+    ("machine_control/", ["C07", "C13", "C09", "C10", "C14", "C18", "C20", "C06"]),
+    ("utils/contexts", ["C18", "C13", "C17"]),
+    ("scripts/", ["C14", "C20", "C18"]),
+]
+
+
+def order_for(rel):
+    first = []
+    for frag, ids in RELEVANT:
+        if frag in rel:
+            first += [i for i in ids if i not in first]
+            break
+    return first + [c for c in ORDER if c not in first]
+
+
+def run_checks(copy_dir, timeout, rel=""):
     env = dict(os.environ, RIG_REPO=copy_dir, VERIF_SEED="0")
     seen = []
-    for cid in ORDER:
+    for cid in order_for(rel):
         try:
             p = subprocess.run([os.path.join(VERIF, "check"), cid],
                                capture_output=True, text=True, env=env,
@@ -147,7 +178,7 @@ def main():
                                 work], capture_output=True, text=True)
             rec["tests"] = "pass" if b.returncode == 0 else "killed"
             if b.returncode == 0:
-                cid, what, seen = run_checks(work, a.check_timeout)
+                cid, what, seen = run_checks(work, a.check_timeout, rel)
                 rec["reported_by"] = cid
                 rec["as"] = what
                 rec["not_held"] = seen
